@@ -17,43 +17,45 @@ Section Cms.
 Variable fixpop fixmap : bool.
 Variable rules : ogrammar.
 
+(* what the closure passed to `.any(..)` does with one node; `rec` is child_modifies_state itself (one level deeper) *)
+Definition cms_visit (rec : oexpr -> ccache -> option (bool * ccache)) (x : oexpr) (c : ccache) : option (bool * ccache) :=
+  match x with
+  | OPush _ => Some (true, c)
+  | OIdent name =>
+      if str_eqb name (nm "DROP") then Some (true, c)
+      else if str_eqb name (nm "POP") then Some (true, c)
+      else if fixpop && str_eqb name (nm "POP_ALL") then Some (true, c)
+      else match cache_get c name with
+           | Some (Some cached) => Some (cached, c)
+           | Some None => Some (false, cache_set c name (Some false))
+           | None =>
+               let c1 := cache_set c name None in
+               match (match omap_get rules name with
+                      | Some body => rec body c1
+                      | None => Some (false, c1)
+                      end) with
+               | Some (result, c2) => Some (result, cache_set c2 name (Some result))
+               | None => None
+               end
+           end
+  | _ => Some (false, c)
+  end.
+(* Iterator::any over the nodes, short-circuiting *)
+Fixpoint cms_any (rec : oexpr -> ccache -> option (bool * ccache)) (l : list oexpr) (c : ccache) : option (bool * ccache) :=
+  match l with
+  | [] => Some (false, c)
+  | x :: rest =>
+      match cms_visit rec x c with
+      | Some (true, c') => Some (true, c')
+      | Some (false, c') => cms_any rec rest c'
+      | None => None
+      end
+  end.
 (* fuel: every recursive call is made for a name that is not in the cache yet and is a key of `rules` *)
 Fixpoint cms (fuel : nat) (e : oexpr) (c : ccache) : option (bool * ccache) :=
   match fuel with
   | O => None
-  | S n =>
-    (fix any (l : list oexpr) (c : ccache) {struct l} : option (bool * ccache) :=
-       match l with
-       | [] => Some (false, c)
-       | x :: rest =>
-         let visit : option (bool * ccache) :=
-           match x with
-           | OPush _ => Some (true, c)
-           | OIdent name =>
-               if str_eqb name (nm "DROP") then Some (true, c)
-               else if str_eqb name (nm "POP") then Some (true, c)
-               else if fixpop && str_eqb name (nm "POP_ALL") then Some (true, c)
-               else match cache_get c name with
-                    | Some (Some cached) => Some (cached, c)
-                    | Some None => Some (false, cache_set c name (Some false))
-                    | None =>
-                        let c1 := cache_set c name None in
-                        match (match omap_get rules name with
-                               | Some body => cms n body c1
-                               | None => Some (false, c1)
-                               end) with
-                        | Some (result, c2) => Some (result, cache_set c2 name (Some result))
-                        | None => None
-                        end
-                    end
-           | _ => Some (false, c)
-           end in
-         match visit with
-         | Some (true, c') => Some (true, c')
-         | Some (false, c') => any rest c'
-         | None => None
-         end
-       end) (oiter_top_down fixmap e) c
+  | S n => cms_any (cms n) (oiter_top_down fixmap e) c
   end.
 
 Definition cms_fuel : nat := S (S (List.length rules)).
